@@ -75,15 +75,17 @@ def shock_jump(p0, r0, g0, p, r, inst):
   return val
 
 # Generalized wave speed for the generalized shock jump relation above.
-def shock_speed(pa, ra, pb, rb, u, inst):
-  sgn = 1
-  if (len(shape(array(pa))) == len(shape(array(pb)))):
-    sgn = -1 if ((pb == inst.pl) and (rb == inst.rl) and (u == inst.ul)) else 1
+def shock_speed(pa, ra, pb, rb, u, inst, sgn=None):
+  if (sgn is None):
+    sgn = 1
+    if (len(shape(array(pa))) == len(shape(array(pb)))):
+      sgn = -1 if ((pb == inst.pl) and (rb == inst.rl) and (u == inst.ul)) else 1
   return sgn * sqrt( ra / rb * (pa - pb) / (ra - rb)) + u
 
 # Generalized wave speed for the generalized shock jump relation above.
-def star_velocity(p0, r0, u0, p, r, inst):
-  sgn = -1 if ((p0 == inst.pl) and (r0 == inst.rl) and (u0 == inst.ul)) else 1
+def star_velocity(p0, r0, u0, p, r, inst, sgn=None):
+  if (sgn is None):
+    sgn = -1 if ((p0 == inst.pl) and (r0 == inst.rl) and (u0 == inst.ul)) else 1
   val = shock_speed(p,r,p0,r0,0,inst) - shock_speed(p0,r0,p,r,0,inst)
   return u0 + val * sgn
 
@@ -106,8 +108,9 @@ def r_int_call(init_vals, fparams, pmin, inst):
   return [integ_array[::-1], array(rs[::-1]), array(us[::-1])]
 
 # Shock state match conditions.
-def match_shocks(pmax, p, r, u, g, inst):
-  sgn = -1 if ((p == inst.pl) and (r == inst.rl) and (u == inst.ul)) else 1
+def match_shocks(pmax, p, r, u, g, inst, sgn=None):
+  if (sgn is None):
+    sgn = -1 if ((p == inst.pl) and (r == inst.rl) and (u == inst.ul)) else 1
   shock_array = linspace(p, pmax, inst.num_int_pts + 2)
   shock_array[0] = (shock_array[1] - shock_array[0]) * 1.e-8 + shock_array[0]
   rxs, rx0, rxf = [], (1. + inst.int_tol) * r, (g + 1.) / (g - 1.) * r
@@ -118,7 +121,7 @@ def match_shocks(pmax, p, r, u, g, inst):
       print('failed px = ', px)
       break
   rxs = array(rxs)
-  uxs = star_velocity(p, r, u, shock_array[:len(rxs)], rxs, inst)
+  uxs = star_velocity(p, r, u, shock_array[:len(rxs)], rxs, inst, sgn)
   return [shock_array[:len(rxs)], rxs, uxs]
 
 def rarefaction(px, p, r, u, g, inst):
